@@ -16,25 +16,26 @@ def isBasic : Seg → Bool
   | (.index, .str _) | (.anchor, .str _) => true
   | _ => false
 
-theorem simOK_basic {sep : Char} (hsep : sep = '.' ∨ sep = '/') :
-    SimOK sep (fun s => isBasic s = true) := by
-  intro seg hP ac st ss lead h hlead hwf
-  obtain ⟨t, a⟩ := seg
-  cases t <;> cases a <;> simp only [isBasic, Bool.false_eq_true] at hP
-  case key.str k => exact seg_key hsep h lead hlead k hwf
-  case matchAll.none => exact seg_matchAll hsep h lead hlead
-  case traverse.none => exact seg_traverse hsep h lead hlead
-  case index.int i => exact seg_int hsep h lead i
-  case index.str s => exact seg_slice hsep h lead s hwf
-  case anchor.str s => exact seg_anchor h lead s hwf
+theorem markFrom_basic : ∀ (segs : List Seg) (mm : Bool), (∀ s ∈ segs, isBasic s = true) →
+    markFrom mm segs = true := by
+  intro segs
+  induction segs with
+  | nil => intro _ _; rfl
+  | cons s r ih =>
+    intro mm h
+    have hs := h s (by simp)
+    have h1 : isInterColl s = false ∧ isEmptyColl s = false := by
+      obtain ⟨t, a⟩ := s
+      cases t <;> cases a <;> simp_all [isBasic, isInterColl, isEmptyColl]
+    simp [markFrom, h1.1, h1.2, ih false (fun x hx => h x (by simp [hx]))]
 
 /-- **parse_write, stage 1.**  Every well-formed list of KEY / INDEX / slice / ANCHOR / MATCH_ALL /
 TRAVERSE segments, of any length, written in dot (`fslash = false`) or forward-slash notation,
-parses back to exactly that list. -/
+parses back to exactly that list — no restriction at all (finding C08-6 needs collectors). -/
 theorem parse_write_basic (fslash : Bool) (segs : List Seg)
     (hk : ∀ s ∈ segs, isBasic s = true) (hwf : wfSegs segs = true) :
-    parseWith fslash true (write fslash segs) = .ok segs :=
-  parse_write_of (simOK_basic (Or.inl rfl)) (simOK_basic (Or.inr rfl)) fslash segs hk hwf
+    parseWith fslash true (write fslash segs) = .ok segs := by
+  simpa using Sim.parseWith_write fslash true segs hwf (fun _ => markFrom_basic segs true hk)
 
 theorem normOriginal_idem (t : Str) : normOriginal (normOriginal t) = normOriginal t := by
   unfold normOriginal
